@@ -23,5 +23,10 @@ for pr in $prop; do
   echo "MUTANT: $(basename "$patch") $pr $tier exit=$rc  $(grep -c '^VIOLATION' "$scratch/out.$pr.log") VIOLATION line(s)"
   grep -E '^(violation|VIOLATION|KNOWN|INFRA|BUILD)' "$scratch/out.$pr.log" | head -6
   [ "${VERBOSE:-0}" = 1 ] && cat "$scratch/out.$pr.log"
+  # every replay file the check wrote must reproduce, in a fresh process, on the same mutated tree
+  for rf in $(grep '^VIOLATION' "$scratch/out.$pr.log" | sed 's/.*replay=//'); do
+    if ./check replay "$rf" > "$scratch/replay.log" 2>&1; then rr="NOT-REPRODUCED"; else rr=$(grep -o 'REPRODUCED[-A-Z]*' "$scratch/replay.log" | head -1); fi
+    echo "MUTANT: replay $(basename "$rf"): ${rr:-?}"
+  done
 done
 exit 0
